@@ -31,6 +31,15 @@ func (ex *c12Exec) rv(v c12Val) c12Val {
 		return r // the object itself (receiver passed on to a helper)
 	}
 	if len(r.Idx) > 0 {
+		// field selections after the last index are selections on the loaded element: the same value whether the
+		// element was copied into a local first (cell := grid[r][c]; cell.Cell) or selected in place (grid[r][c].Cell)
+		if i := strings.LastIndex(r.Path, "[]"); i >= 0 && i+2 < len(r.Path) {
+			var sel []string
+			for _, f := range strings.Split(strings.TrimPrefix(r.Path[i+2:], "."), ".") {
+				sel = append(sel, "."+f)
+			}
+			return c12Load{Path: r.Path[:i+2], Idx: r.Idx, Sel: sel}
+		}
 		return c12Load{Path: r.Path, Idx: r.Idx}
 	}
 	return c12Sym{Hole: -1, Desc: key, From: r.Field}
@@ -85,6 +94,9 @@ func (ex *c12Exec) expr(fr *c12Frame, e ast.Expr) c12Val {
 		if v, ok := fr.env[o]; ok {
 			return v
 		}
+		if v, ok := ex.pkgTable(o); ok {
+			return v
+		}
 		return c12Sym{Hole: -1, Desc: t.Name}
 	case *ast.BasicLit:
 		return c12Sym{Hole: -1, Desc: t.Value}
@@ -93,7 +105,12 @@ func (ex *c12Exec) expr(fr *c12Frame, e ast.Expr) c12Val {
 	case *ast.UnaryExpr:
 		switch t.Op {
 		case token.AND:
-			return ex.expr(fr, t.X)
+			v := ex.expr(fr, t.X)
+			if r, ok := v.(c12Ref); ok {
+				r.Addr = true
+				return r
+			}
+			return v
 		case token.NOT:
 			v := ex.rv(ex.expr(fr, t.X))
 			if b, ok := v.(c12Bool); ok {
@@ -138,6 +155,10 @@ func (ex *c12Exec) expr(fr *c12Frame, e ast.Expr) c12Val {
 			base = ex.rv(base)
 		}
 		switch b := base.(type) {
+		case c12Map:
+			if v, _, known := ex.mapLookup(fr, b, idx, fr.info.TypeOf(t)); known {
+				return v
+			}
 		case c12Slice:
 			if i, ok := idx.(c12Int); ok {
 				if i.V < 0 || int(i.V) >= len(b.Elems) {
@@ -275,6 +296,12 @@ func (ex *c12Exec) composite(fr *c12Frame, t *ast.CompositeLit) c12Val {
 			}
 			if cl, ok := el.(*ast.CompositeLit); ok && cl.Type == nil {
 				// elided inner type
+				if it := fr.info.TypeOf(cl); it != nil {
+					if _, isStruct := it.Underlying().(*types.Struct); isStruct {
+						out = append(out, ex.composite(fr, cl))
+						continue
+					}
+				}
 				var in []c12Val
 				for _, e2 := range cl.Elts {
 					in = append(in, ex.rv(ex.expr(fr, e2)))
@@ -285,8 +312,70 @@ func (ex *c12Exec) composite(fr *c12Frame, t *ast.CompositeLit) c12Val {
 			out = append(out, ex.rv(ex.expr(fr, el)))
 		}
 		return c12Slice{Elems: out}
+	case *types.Map:
+		m := c12Map{Typ: typ}
+		for _, el := range t.Elts {
+			kv, ok := el.(*ast.KeyValueExpr)
+			if !ok {
+				return c12Sym{Hole: -1, Desc: "composite " + typeName(typ)}
+			}
+			m.Keys = append(m.Keys, ex.rv(ex.expr(fr, kv.Key)))
+			if cl, ok := kv.Value.(*ast.CompositeLit); ok && cl.Type == nil {
+				m.Vals = append(m.Vals, ex.composite(fr, cl))
+			} else {
+				m.Vals = append(m.Vals, ex.rv(ex.expr(fr, kv.Value)))
+			}
+		}
+		return m
 	}
 	return c12Sym{Hole: -1, Desc: "composite " + typeName(typ)}
+}
+
+// pkgTable: the value of a package-level table of the repository that is initialised with a composite literal and
+// only ever read (Program.ReadOnlyTable): the literal, evaluated in its own package. A lookup table that replaced
+// a switch or a run of duplicated blocks is thereby executed row by row.
+func (ex *c12Exec) pkgTable(o types.Object) (c12Val, bool) {
+	v, ok := o.(*types.Var)
+	if !ok || v.IsField() || v.Pkg() == nil || v.Parent() != v.Pkg().Scope() || v.Exported() || ex.p == nil {
+		return nil, false
+	}
+	lit := ex.p.ReadOnlyTable(v)
+	if lit == nil {
+		return nil, false
+	}
+	for _, pk := range ex.p.Pkgs {
+		if pk.Types == v.Pkg() {
+			val := ex.composite(&c12Frame{pk: pk, info: pk.TypesInfo, env: map[types.Object]c12Val{}, fn: "table " + v.Name()}, lit)
+			if _, unknown := val.(c12Sym); unknown {
+				return nil, false
+			}
+			return val, true
+		}
+	}
+	return nil, false
+}
+
+// mapLookup: m[k] for a table with known keys. known=false when the key cannot be compared with every entry.
+func (ex *c12Exec) mapLookup(fr *c12Frame, m c12Map, k c12Val, elemT types.Type) (val c12Val, found, known bool) {
+	for i, mk := range m.Keys {
+		eq, kn := c12Eq(mk, k)
+		if !kn {
+			eq, kn = c12Eq(k, mk)
+		}
+		if !kn {
+			return nil, false, false
+		}
+		if eq {
+			return m.Vals[i], true, true
+		}
+	}
+	if mt, ok := m.Typ.Underlying().(*types.Map); ok {
+		return ex.zero(mt.Elem()), false, true
+	}
+	if elemT != nil {
+		return ex.zero(elemT), false, true
+	}
+	return nil, false, false
 }
 
 func (ex *c12Exec) sliceExpr(fr *c12Frame, t *ast.SliceExpr) c12Val {
@@ -402,6 +491,12 @@ func (ex *c12Exec) binary(fr *c12Frame, t *ast.BinaryExpr) c12Val {
 		}
 		return ex.rv(ex.expr(fr, t.Y))
 	}
+	if t.Op == token.EQL || t.Op == token.NEQ {
+		// the address of a piece of the receiver state compared with nil
+		if res, known := ex.addrNilCmp(fr, t.X, t.Y); known {
+			return c12Bool{res == (t.Op == token.EQL)}
+		}
+	}
 	l := ex.rv(ex.expr(fr, t.X))
 	r := ex.rv(ex.expr(fr, t.Y))
 	// an unknown comparison is described by the values compared, so that the same question asked twice
@@ -429,6 +524,32 @@ func (ex *c12Exec) binary(fr *c12Frame, t *ast.BinaryExpr) c12Val {
 		return unknown
 	}
 	return v
+}
+
+// addrNilCmp decides `p == nil` for pointer-typed operands: an address taken with & is not nil.
+func (ex *c12Exec) addrNilCmp(fr *c12Frame, x, y ast.Expr) (eq, known bool) {
+	isPtr := func(e ast.Expr) bool {
+		t := fr.info.TypeOf(e)
+		if t == nil {
+			return false
+		}
+		_, ok := t.Underlying().(*types.Pointer)
+		return ok
+	}
+	if !isPtr(x) && !isPtr(y) {
+		return false, false
+	}
+	a, b := ex.expr(fr, x), ex.expr(fr, y)
+	if _, isNil := a.(c12Nil); isNil {
+		a, b = b, a
+	}
+	if _, isNil := b.(c12Nil); !isNil {
+		return false, false
+	}
+	if r, ok := a.(c12Ref); ok && r.Addr {
+		return false, true
+	}
+	return false, false
 }
 
 func (ex *c12Exec) arith(op token.Token, l, r c12Val) c12Val {
